@@ -201,10 +201,22 @@ func c06Body(faulty bool) func(rc *RunCtx) {
 				d.Plan = append(d.Plan, fmt.Sprintf("first server reachable again after %d sends", k))
 			}
 		}
+		// a healthy but slow collector (no fault: nothing may be lost because of it): it pauses
+		// reading at a seeded offset and catches up later, so that accepted frames sit in the
+		// client's kernel for a while
+		slowAt, slowFor := int64(-1), time.Duration(0)
+		if !faulty && simrt.ChanceF(1, 3) {
+			slowAt = int64(simrt.ChooseF(120000))
+			slowFor = time.Duration(1+simrt.ChooseF(20000)) * time.Millisecond
+			d.Plan = append(d.Plan, fmt.Sprintf("collector pauses reading at offset %d for %v", slowAt, slowFor))
+		}
 		accept := func(s *simnet.ServerSide) {
 			s.OnData = d.onData
 			if d.healed {
 				return
+			}
+			if slowAt >= 0 && s.Ordinal == 0 {
+				s.SlowAt, s.SlowFor = slowAt, slowFor
 			}
 			if f, ok := planByConn[s.Ordinal]; ok {
 				switch f.kind {
@@ -382,6 +394,13 @@ func c06Body(faulty bool) func(rc *RunCtx) {
 		for _, tk := range tasks {
 			simrt.Join(tk)
 		}
+		if !faulty && !d.Queue && simrt.ChanceF(1, 3) {
+			// the application closes the client once its senders are done (direct mode: nothing
+			// else uses the connection); everything already accepted must still arrive
+			simrt.Note("application calls Close()")
+			simrt.Probe("client_closed_by_application")
+			client.Close()
+		}
 		// let the queue drain / timers run
 		simrt.Settle(int64(40 * time.Second))
 		// ---- heal: faults stop, every server is up ----
@@ -390,7 +409,7 @@ func c06Body(faulty bool) func(rc *RunCtx) {
 		n.SetMode(addrA, simnet.Up)
 		n.SetMode(addrB, simnet.Up)
 		for _, c := range n.Conns {
-			c.ResetAt, c.CloseAt = -1, -1
+			c.ResetAt, c.CloseAt, c.SlowAt = -1, -1, -1
 			c.Unstall()
 		}
 		d.HealStamp = simrt.Stamp()
